@@ -1215,14 +1215,36 @@ impl<'m, 'a> Driver<'m, 'a> {
         let m = &mut *self.m;
         let n2 = name.clone();
         let is_local = e.local;
+        // imported functions can be named through three public calls
+        let path = if is_local {
+            0
+        } else {
+            match rng.below(3) {
+                1 if e.imports_id.is_some() => 1,
+                // ModuleImports::set_fn_name takes the FunctionID of an imported function: ids of the parsed module
+                2 if !e.added && id < self.g.n_imp_funcs => 2,
+                _ => 0,
+            }
+        };
+        let imports_id = e.imports_id.unwrap_or(0);
         let r = catch(move || {
             if is_local {
                 assert!(m.functions.set_local_fn_name(FunctionID(id), n2));
+            } else if path == 1 {
+                m.imports.set_name(n2, wirm::ir::id::ImportsID(imports_id));
+            } else if path == 2 {
+                m.imports.set_fn_name(n2, FunctionID(id));
             } else {
                 m.set_fn_name(FunctionID(id), n2);
             }
         });
-        self.model.log.push(format!("set name of FunctionID({}) = {} to {}", id, e.ident, name));
+        self.model.log.push(format!(
+            "set name{} of FunctionID({}) = {} to {}",
+            ["", " (imports.set_name by ImportsID)", " (imports.set_fn_name by FunctionID)"][path],
+            id,
+            e.ident,
+            name
+        ));
         self.model.flat.insert(format!("name.func[{}]", e.ident), name);
         Self::err("set_fn_name", r)
     }
